@@ -5,6 +5,7 @@ int_lists_to_strings) in every importing module, so that calls made while files 
 batch-independence monitor (row result == result of converting the row alone / in a permuted / sub-batch).
 """
 import math
+import random
 
 import numpy as np
 
@@ -471,11 +472,59 @@ def run(ctx):
         rows = [(rng.randint(0, 10 ** 6), rng.randint(0, 10 ** 6), rand_float_text(rng)) for _ in range(n)]
         call(case_bdg, rows)
 
+    # ---- F2. missing-value parsers: '.' and '' are missing, everything else is the number --------------------------------
+    def case_missing(texts):
+        import math
+        arr = bnp.as_encoded_array(texts)
+        got = np.asarray(strops.str_to_float_with_missing(arr)).tolist()
+        exp = [float("nan") if t in (".", "") else float(t) for t in texts]
+        ok = len(got) == len(exp) and all((math.isnan(e) and math.isnan(g)) or (not math.isnan(e) and not math.isnan(g) and ulps(g, e) <= 4) for g, e in zip(got, exp))
+        ctx.check("with-missing", ok, "str_to_float_with_missing/value-or-missing", "str_to_float_with_missing(%r) gave %r" % (texts, got), {"texts": texts, "got": [str(g) for g in got]}, tuple(texts))
+        its = [t for t in texts if "." not in t[1:] and "e" not in t and not t.startswith(".") or t in (".", "")]
+        its = [t if t in (".", "") else t.split(".")[0] or "0" for t in its]
+        if its:
+            gi_ = np.asarray(strops.str_to_int_with_missing(bnp.as_encoded_array(its))).tolist()
+            ei_ = [0 if t in (".", "") else int(t) for t in its]
+            ctx.check("with-missing", gi_ == ei_, "str_to_int_with_missing/value-or-missing", "str_to_int_with_missing(%r) gave %r" % (its, gi_), {"texts": its, "got": gi_}, tuple(its))
+    for _ in range(ctx.share(ctx.pick(300, 6000))):
+        k = rng.choice([1, 2, 3, 6])
+        texts = [rng.choice([".", "", ".5", "-.25", "0.5", ".0625", ".125e2", "7", "-3", "12.5", "1e3", "5.", rand_float_text(rng)]) for _ in range(k)]
+        call(case_missing, texts)
+
+    # ---- F3. results of the text builders stay what they were while later calls run (no shared output buffers) ------------------
+    def case_held(seed_):
+        r_ = random.Random(seed_)
+        made = []
+        for _ in range(4):
+            n_ = r_.choice([2, 3, 3, 4])
+            rows_ = ["".join(r_.choice("ACGT") for _ in range(3)) for _ in range(n_)]      # equal total lengths recur
+            made.append((strops.join(bnp.as_encoded_array(rows_), "\t"), "\t".join(rows_) + "\t", "join"))
+            lists_ = [[r_.randint(10, 99) for _ in range(2)] for _ in range(n_)]
+            made.append((strops.int_lists_to_strings(RaggedArray([np.array(v, dtype=int) for v in lists_]), keep_last=True), None, ("lists", lists_)))
+            m_ = [[r_.randint(10, 99) for _ in range(2)] for _ in range(n_)]
+            made.append((matrix_to_csv(np.array(m_, dtype=np.int64), header=["a", "b"], sep="\t"), "a\tb\n" + "".join("%d\t%d\n" % tuple(x) for x in m_), "matrix"))
+        for res_, exp_, kind_ in made:
+            if kind_ == "join":
+                got_ = res_.to_string() if hasattr(res_, "to_string") else "".join(res_.tolist())
+                ok_ = got_ == exp_ or got_ == exp_[:-1]
+            elif kind_ == "matrix":
+                got_ = res_.to_string()
+                ok_ = got_ == exp_
+            else:
+                got_ = res_.tolist()
+                ok_ = got_ == [",".join(map(str, v)) + "," for v in kind_[1]]
+            ctx.check("held-text-results", ok_, "text-builders/result-changed-by-a-later-call:%s" % (kind_ if isinstance(kind_, str) else "int_lists"), "a result kept while later calls ran now reads %r" % (got_ if isinstance(got_, str) else got_[:3],), {"kind": str(kind_)[:80], "got": str(got_)[:200], "expected": str(exp_)[:200]}, None)
+    from bionumpy.io.matrix_dump import matrix_to_csv, parse_matrix
+    for i in range(ctx.share(ctx.pick(100, 2000))):
+        call(case_held, ctx.seed * 31 + ctx.shard * 7 + i)
+
     # ---- G. matrix dump -----------------------------------------------------------------------
     from bionumpy.io.matrix_dump import matrix_to_csv, parse_matrix
 
     def case_matrix(m):
         mat = np.array(m, dtype=np.int64)
+        if (len(m) + len(m[0]) + m[0][0]) % 3 == 0:
+            mat = np.asfortranarray(mat)          # column-major memory layout: the same matrix
         header = ["c%d" % i for i in range(mat.shape[1])]
         txt = matrix_to_csv(mat, header=header, sep="\t").to_string()
         exp = "\t".join(header) + "\n" + "".join("\t".join(str(v) for v in row) + "\n" for row in m)
